@@ -23,12 +23,18 @@ def sh(cmd, cwd, timeout=1500):
 def main():
     cid, mn = sys.argv[1], sys.argv[2]
     place = cmd = None
+    cwd_rel = ""
+    nocopy = False
     a = sys.argv[3:]
     while a:
         if a[0] == "--place":
             place = a[1]; a = a[2:]
         elif a[0] == "--cmd":
             cmd = a[1]; a = a[2:]
+        elif a[0] == "--cwd":
+            cwd_rel = a[1]; a = a[2:]
+        elif a[0] == "--nocopy":
+            nocopy = True; place = "."; a = a[1:]
         else:
             raise SystemExit("bad arg " + a[0])
     base = f"/tmp/seed/{cid}"
@@ -74,23 +80,24 @@ def main():
         res["suite_unexpected_failures"] = unexpected
         if unexpected:
             print("\n".join(unexpected)); raise SystemExit("existing suite fails with the patch")
-        for d in demos:
-            shutil.copy(d, f"{wt}/{place}/")
+        if not nocopy:
+            for d in demos:
+                shutil.copy(d, f"{wt}/{place}/")
         t0 = time.time()
-        rc, o = sh(cmd, wt)
+        rc, o = sh(cmd, f"{wt}/{cwd_rel}")
         res["demo_with_patch_rc"] = rc
         res["demo_with_patch_tail"] = o[-1200:]
         res["demo_with_patch_s"] = round(time.time() - t0, 1)
         if rc == 0:
             raise SystemExit("demo PASSES with the patch applied")
         sh(f"git apply -R {patch}", wt)
-        rc, o = sh(cmd, wt)
+        rc, o = sh(cmd, f"{wt}/{cwd_rel}")
         res["demo_clean_rc"] = rc
         if rc != 0:
             print(o[-2000:]); raise SystemExit("demo FAILS on the clean tree")
         ok = True
     finally:
-        for d in demos:
+        for d in ([] if nocopy else demos):
             try:
                 os.remove(f"{wt}/{place}/{os.path.basename(d)}")
             except FileNotFoundError:
